@@ -299,3 +299,172 @@ def pat_set(ev, p, universe, env=None):
     if k in ('p_ref', 'p_deref'):
         return pat_set(ev, p['pat'], universe, env)
     raise Unanalysable(f'unsupported pattern `{k}` at line {p.get("l")}')
+
+
+# ----------------------------------------------------------------------------
+# Exact evaluation of *pure* integer / boolean expression trees over a concrete
+# environment.  Used to tabulate a guard or a table over a finite universe (all
+# months x leap flags, all years 0..=9999, all 2-digit values); this is the
+# denotation of the expression by structural recursion, not an execution of the
+# repository's code: calls other than the handful of pure std helpers listed here
+# are Unanalysable.
+
+class Ret(Exception):
+    def __init__(self, v):
+        self.v = v
+
+
+class Interp:
+    def __init__(self, ev):
+        self.ev = ev
+
+    def run(self, e, env):
+        try:
+            return self.val(e, dict(env))
+        except Ret as r:
+            return r.v
+
+    def val(self, e, env):
+        k = e.get('k')
+        if k == 'block':
+            for s in e.get('stmts', []):
+                self.val(s, env)
+            if e.get('expr') is not None:
+                return self.val(e['expr'], env)
+            return ()
+        if k == 'let':
+            v = self.val(e['init'], env)
+            self.bind(e['pat'], v, env)
+            return ()
+        if k == 'semi':
+            self.val(e['e'], env)
+            return ()
+        if k == 'lit':
+            if e.get('lk') in ('int', 'byte', 'char', 'bool'):
+                return e['v']
+            if e.get('lk') == 'str':
+                return e['v']
+            raise Unanalysable('literal kind ' + str(e.get('lk')))
+        if k == 'path':
+            res = e.get('res', '')
+            p = e.get('path', '')
+            if res == 'Local':
+                if p in env:
+                    return env[p]
+                raise Unanalysable(f'unbound local `{p}`')
+            if res.startswith('Ctor'):
+                return ('ctor', p)
+            return self.ev.integer(e, env)
+        if k in ('cast', 'addrof'):
+            return self.val(e['a'], env)
+        if k == 'unary':
+            v = self.val(e['a'], env)
+            if e['op'] == '!':
+                return not v
+            if e['op'] == '-':
+                return -v
+            if e['op'] == '*':
+                return v
+        if k == 'binary':
+            op = e['op']
+            if op == '&&':
+                return bool(self.val(e['a'], env)) and bool(self.val(e['b'], env))
+            if op == '||':
+                return bool(self.val(e['a'], env)) or bool(self.val(e['b'], env))
+            a = self.val(e['a'], env)
+            b = self.val(e['b'], env)
+            ops = {'+': lambda: a + b, '-': lambda: a - b, '*': lambda: a * b, '/': lambda: a // b, '%': lambda: a % b,
+                   '<': lambda: a < b, '<=': lambda: a <= b, '>': lambda: a > b, '>=': lambda: a >= b,
+                   '==': lambda: a == b, '!=': lambda: a != b}
+            if op in ops:
+                return ops[op]()
+        if k == 'if':
+            c = self.val(e['cond'], env)
+            if c:
+                return self.val(e['then'], env)
+            if 'else' in e:
+                return self.val(e['else'], env)
+            return ()
+        if k == 'match':
+            v = self.val(e['scrut'], env)
+            for arm in e['arms']:
+                env2 = dict(env)
+                if self.matches(arm['pat'], v, env2):
+                    if 'guard' in arm and not self.val(arm['guard'], env2):
+                        continue
+                    env.update(env2)
+                    return self.val(arm['body'], env)
+            raise Unanalysable('non-exhaustive match in evaluation')
+        if k == 'tup':
+            return tuple(self.val(x, env) for x in e['elems'])
+        if k == 'call':
+            f = peel(e.get('f', {}))
+            p = f.get('path', '')
+            args = [self.val(a, env) for a in e.get('args', [])]
+            seg = last_seg(p)
+            if f.get('res', '').startswith('Ctor'):
+                return ('ctor', p, tuple(args))
+            if seg == 'from' and len(args) == 1:
+                return args[0]
+            if 'RangeInclusive' in p and seg == 'new':
+                return ('range', args[0], args[1])
+            raise Unanalysable(f'call of `{p}` in a pure expression')
+        if k == 'mcall':
+            name = e.get('name')
+            recv = self.val(e['recv'], env)
+            args = [self.val(a, env) for a in e.get('args', [])]
+            if name == 'contains' and isinstance(recv, tuple) and recv[0] == 'range':
+                return recv[1] <= args[0] <= recv[2]
+            if name in ('into', 'clone', 'to_owned'):
+                return recv
+            if name == 'is_some':
+                return recv != ('ctor', 'core::option::Option::None')
+            raise Unanalysable(f'method `{name}` in a pure expression')
+        if k == 'struct':
+            p = e.get('path') or ''
+            f = {x['name']: self.val(x['e'], env) for x in e.get('fields', [])}
+            if 'Range' in p and 'start' in f and 'end' in f:
+                return ('range', f['start'], f['end'] - 1)
+            return ('struct', p, f)
+        if k == 'ret':
+            raise Ret(self.val(e['v'], env) if 'v' in e else ())
+        raise Unanalysable(f'`{k}` at line {e.get("l")} in a pure expression')
+
+    def bind(self, p, v, env):
+        if not self.matches(p, v, env):
+            raise Unanalysable('refutable let pattern did not match')
+
+    def matches(self, p, v, env):
+        k = p.get('k')
+        if k == 'p_wild':
+            return True
+        if k == 'p_bind':
+            if 'sub' in p and not self.matches(p['sub'], v, env):
+                return False
+            env[p['name']] = v
+            return True
+        if k == 'p_or':
+            return any(self.matches(x, v, env) for x in p['pats'])
+        if k == 'p_expr':
+            e = p['e']
+            if e.get('k') == 'lit':
+                return e['v'] == v
+            if e.get('k') == 'path':
+                if e.get('res', '').startswith('Ctor'):
+                    return v == ('ctor', e['path']) or (isinstance(v, tuple) and v[:2] == ('ctor', e['path']))
+                return self.ev.integer(e) == v
+        if k == 'p_range':
+            lo = self.ev.integer(p['lo']) if 'lo' in p else -INF
+            hi = self.ev.integer(p['hi']) if 'hi' in p else INF
+            if not p.get('incl'):
+                hi -= 1
+            return lo <= v <= hi
+        if k == 'p_tuple':
+            return isinstance(v, tuple) and len(v) == len(p['pats']) and all(self.matches(x, y, env) for x, y in zip(p['pats'], v))
+        if k in ('p_ref', 'p_deref'):
+            return self.matches(p['pat'], v, env)
+        if k == 'p_tuplestruct':
+            if isinstance(v, tuple) and len(v) == 3 and v[0] == 'ctor' and v[1] == p.get('path'):
+                return all(self.matches(x, y, env) for x, y in zip(p['pats'], v[2]))
+            return False
+        raise Unanalysable(f'pattern `{k}` in evaluation')
